@@ -14,6 +14,7 @@ import Sb.Corr.LightOps
 import Sb.Corr.RthOps
 import Sb.Corr.LoadOps
 import Sb.Corr.BuilderOps
+import Sb.Corr.UtilOps
 
 open Sb.Corr
 
@@ -36,6 +37,16 @@ def dispatch (op : String) (args impl : List String) : Verdict :=
   | "rth" => opRth args impl
   | "load2" => opLoad2 args impl
   | "bld" => opBld args impl
+  | "tt" => opTt args impl
+  | "ttmono" => opTtMono args impl
+  | "scale" => opScale args impl
+  | "ms" => opMs args impl
+  | "ivl" => opIvl args impl
+  | "lerp" => opLerp args impl
+  | "lerp_row" => opLerpRow args impl
+  | "rgbw" => opRgbw args impl
+  | "rgbw_row" => opRgbwRow args impl
+  | "bufops" => opBufops args impl
   | "traj" => opTraj args impl
   | "yawq" => opYawq args impl
   | "facc" => opFacc args impl
